@@ -20,6 +20,27 @@ fn main() {
     }
     #[cfg(feature = "alloc")]
     {
+        fn string_errors(path: &str) -> Result<Vec<u8>, Box<dyn std::error::Error + Send + Sync + 'static>> {
+            featcheck::virtual_file(path).map_err(|_| "No such file (virtual)".into())
+        }
+        let d = featcheck::resolution_digest(string_errors);
+        println!("resolve {:016x} {}", d.0, d.1);
+    }
+    #[cfg(feature = "std")]
+    {
+        // the same virtual file system, absent files reported as std::io::Error values of several kinds
+        fn io_errors(path: &str) -> Result<Vec<u8>, Box<dyn std::error::Error + Send + Sync + 'static>> {
+            use std::io::{Error, ErrorKind};
+            featcheck::virtual_file(path).map_err(|h| {
+                let kind = [ErrorKind::NotFound, ErrorKind::PermissionDenied, ErrorKind::Other, ErrorKind::InvalidInput, ErrorKind::Interrupted, ErrorKind::TimedOut][(h / 2 % 6) as usize];
+                Box::new(Error::new(kind, "virtual")) as Box<dyn std::error::Error + Send + Sync>
+            })
+        }
+        let d = featcheck::resolution_digest(io_errors);
+        println!("resolve-io-errors {:016x} {}", d.0, d.1);
+    }
+    #[cfg(feature = "alloc")]
+    {
         let dir = args.get(3).cloned().unwrap_or_default();
         let mut files: Vec<Vec<u8>> = vec![];
         if let Ok(rd) = std::fs::read_dir(&dir) {
